@@ -124,6 +124,18 @@ CLAIMED["C04"] = dict(
     technique=EMOD_TECH,
     design="DESIGN.md#c04",
 )
+CLAIMED["C03"] = dict(
+    engine="E-modify",
+    text="Lean theorems for every IR: bulk update_edge over a snapshot is characterised by membership; after a split in "
+    "the middle the block's out-edges leave from the tail and the head's only successor is the connecting "
+    "fallthrough; joining a non-empty block that does not fall through with the dead empty block behind it adds no "
+    "edge (no fallthrough after a jump or return); the empty tail behind a terminator gets at most the one "
+    "fallthrough to the code that follows." + EMOD_TIE + " The oracle is the rule-by-rule control flow of the output "
+    "bytes decoded by capstone. Partial: composition over whole insert/delete calls and return-edge maintenance "
+    "are decided by oracle and correspondence only.",
+    technique=EMOD_TECH,
+    design="DESIGN.md#c03",
+)
 
 ALL = ["C%02d" % i for i in range(1, 21)]
 
@@ -165,7 +177,7 @@ def main():
         "engines": [
             {"name": "E-abi", "path": "lean/GtirbVerif/Model/Abi", "serves_properties": ["C16", "C17"], "kind_free_text": "abstract machine + Lean models of _allocate_patch_registers, the four prologue/epilogue generators and CallPatch; tables regenerated from abi._ABIS"},
             {"name": "E-adt", "path": "lean/GtirbVerif/Model/Adt", "serves_properties": ["C20", "C09"], "kind_free_text": "Lean models of ReferenceCache, ReturnEdgeCache, make_return_cache, BlockOrdering, OffsetMapping, IdentitySet with refinement proofs"},
-            {"name": "E-modify", "path": "lean/GtirbVerif/Model/IR", "serves_properties": ["C01", "C02", "C04"], "kind_free_text": "abstract GTIRB IR + Lean models of edit_byte_interval, split_block, are_joinable/join_blocks, remove_block, insert, delete, _cleanup_modified_blocks, the offset loop of _apply_modifications; listing specification (Spec/Listing*.lean)"},
+            {"name": "E-modify", "path": "lean/GtirbVerif/Model/IR", "serves_properties": ["C01", "C02", "C03", "C04"], "kind_free_text": "abstract GTIRB IR + Lean models of edit_byte_interval, split_block, are_joinable/join_blocks, remove_block, insert, delete, _cleanup_modified_blocks, the offset loop of _apply_modifications; listing specification (Spec/Listing*.lean)"},
             {"name": "E-dwarf", "path": "lean/GtirbVerif/Model/Dwarf", "serves_properties": ["C14", "C15"], "kind_free_text": "Lean model of dwarf/_encoders,_encodable,expr,cfi,cfi_eval + regenerated tables"},
         ],
         "checks": checks,
